@@ -289,12 +289,12 @@ fn twin_submissions(ctx: &WorkerCtx, rep: &mut WorkerReport) {
     let signer = hist::Signer::new(2);
     let mut tool: Option<String> = None;
     let n = if ctx.thorough() { 24 } else { 8 };
-    let blk = (1000u64, format!("0x{:064x}", 0xb15u64));
+    let blk = (1000u64, crate::hist::bh((0xb15u64) as u64));
     let mut nonce = 0u64;
     for i in 0..n {
         let ctxa = Ctx { ts: blk.0, hash: blk.1.clone(), idx: a.ntx };
         let iid = format!("c15-{}i0", i);
-        let txid = format!("0x{:064x}", 0x7100 + i);
+        let txid = crate::hist::bh((0x7100 + i) as u64);
         let mk = |enc: Enc| -> Op {
             match (i % 4, &tool) {
                 (0, _) | (_, None) => Op::Deploy { pk: pk.clone(), data: hist::hx(&if i % 8 == 0 { asm::tool_init() } else { asm::tool_init_with_ctor() }), enc, ctx: ctxa.clone(), iid: iid.clone(), len: 100_000, txid: txid.clone() },
